@@ -385,7 +385,8 @@ def t_delete_exact(ev, outcome, exc, path, I):
 # inside the attribute handlers the helpers are executed (their bodies, not their contracts), so
 # that the store events of the real statements are what the handler predicates judge
 for _h in ("_set_attributes_on_managed_object", "_delete_attribute_from_managed_object",
-           "_set_attribute_on_managed_object_by_index", "_set_attribute_on_managed_object"):
+           "_set_attribute_on_managed_object_by_index", "_set_attribute_on_managed_object",
+           "_get_attributes_from_managed_object"):
     contract(E + _h, variant="attribute-operation").inlined()
 
 for hname, pkind, op in [("_process_delete_attribute", DEL_PAYLOAD, 'DELETE_ATTRIBUTE')]:
